@@ -63,7 +63,24 @@ def gen_link(rng):
             t_pub += rng.randint(1, 4)
             events += [["push", t_pub], ["pull", t_pub]]
         return {"chain": chain, "init": init, "in_time": None, "events": events, "notified": True}
-    return {"chain": chain, "init": init, "in_time": in_time, "events": events}
+    case = {"chain": chain, "init": init, "in_time": in_time, "events": events}
+    if all(a[0] != "dpull" for a in chain) and in_time is None and rng.random() < 0.25:
+        # a second consumer on the same adapter objects (DelayFixed / DelayToPush / Scale may branch), asking on its own,
+        # slower or faster schedule: an adapter's answer depends on the request (and the newest publication), not on who
+        # asked before
+        case["shared"] = True
+        t2, mixed = init, []
+        for ev in events:
+            second = None
+            if ev[0] == "pull" and rng.random() < 0.6:
+                t2 += rng.choice([0, 1, 2, 4])
+                second = ["pull", t2, 1]
+            if second is not None and rng.random() < 0.5:
+                mixed += [second, ev]
+            else:
+                mixed += [ev] + ([second] if second is not None else [])
+        case["events"] = mixed
+    return case
 
 
 def mk(a):
@@ -97,8 +114,16 @@ def run_link(case):
     for a in case["chain"]:
         cur = cur >> mk(a)
     cur >> inp
+    inp2 = None
+    if case.get("shared"):
+        inp2 = fm.Input(name="in2", info=fm.Info(time=None, grid=None, units=None))
+        cur >> inp2
     inp.ping()
+    if inp2 is not None:
+        inp2.ping()
     inp.exchange_info()
+    if inp2 is not None:
+        inp2.exchange_info()
     orig = out.get_data
 
     def logged(time, target):
@@ -122,7 +147,7 @@ def run_link(case):
         else:
             reached.clear()
             try:
-                v = inp.pull_data(T(ev[1] * HOUR))
+                v = (inp2 if len(ev) > 2 else inp).pull_data(T(ev[1] * HOUR))
                 results.append({"reach": reached[-1] if reached else None, "value": {"ok": int(round(scalar(v)))}})
             except Exception as e:  # noqa
                 results.append({"reach": reached[-1] if reached else None, "value": {"err": err_class(e)}})
@@ -141,7 +166,7 @@ def model_link(case):
             ads.append(["dpush"])
         else:
             ads.append(["pass"])
-    return {"op": "c13", "ads": ads[::-1], "init": case["init"], "ndp": ndp, "events": case["events"], "probe": case["init"]}
+    return {"op": "c13", "ads": ads[::-1], "init": case["init"], "ndp": ndp, "events": [e[:2] for e in case["events"]], "probe": case["init"]}
 
 
 def reference(case):
